@@ -181,6 +181,17 @@ def tCase : FS := ⟨.dir [("a".toList, .file), ("A".toList, .file)], []⟩
 def reStar : Re := .cat .bos (.cat (.flags true false (.cat (.look true (.lit '.')) (.star true .any))) .eos)
 def pStar : List GPart := [⟨.re "*".toList reStar, true, false, false, false, false⟩]
 
+/-- r/ = { b → (a link that cannot be resolved: to itself, or through a regular file), ok } -/
+def tLoop : FS := ⟨.dir [("b".toList, .link none), ("ok".toList, .file)], []⟩
+
+/-- **D32, repaired**: `glob('*')` used to omit a symlink whose `is_dir()` raises `OSError` (ELOOP, ENOTDIR) although the
+    entry exists; the model (a link without a resolvable target is `.link none`, like a dangling one) always listed it —
+    the disagreement surfaced while proving C16's match / rglob equivalence.  With the repair the walker returns what is
+    denoted.  (K5 generates such links on real trees; this theorem pins the model side.) -/
+theorem D32_fixed_witness :
+    globResults wU tLoop 3 [pStar] = ["b".toList, "ok".toList] ∧
+    (denoteTop tLoop wc true 3 pStar).map (·.path) = ["b".toList, "ok".toList] := by decide +kernel
+
 /-- **KF-G2**: under IGNORECASE `glob('*')` returns `a` but not the different file `A` (one
     case-folded key in the seen-set); `*` denotes both. -/
 theorem G2_witness :
